@@ -137,3 +137,10 @@ P("C13",
    book("c13_place_bid_limit_enabled_m2", "after re-enabling: bid limit on a possibly crossed book == reference"),
    book("c13_place_ask_limit_enabled_m2", "after re-enabling: ask limit on a possibly crossed book == reference")],
   extra_assume=[DISC])
+
+NOT_APPLICABLE = {
+    "C09": "two-run hyperproperty over whole simulations, OS processes and the progress-bar branch (kdam terminal I/O, ziggurat sampler with "
+           "unbounded loops, hundreds of steps): self-composition of deterministic code is vacuously equal inside a bounded symbolic executor and "
+           "the nondeterminism sources it is meant to exclude (hash seeds, addresses, process state) are not modelled; reachable fragments are "
+           "claimed under C08 (step is a function of state, batch and RNG words), C15 (shuffle depends only on the words) and C18 (seeding). DESIGN.md §5",
+}
